@@ -100,6 +100,10 @@ def reference(hist):
         if op == "wb":
             out.append("*")          # white-box line: compared between implementation and model only
             continue
+        if op == "hashnum":
+            w_, sg, x = int(w[1]), int(w[2]), int(w[3])
+            out.append(f"num {(x - (1 << w_)) % (1 << 64) if sg and x >= (1 << (w_ - 1)) else x}")
+            continue
         if op == "hashstr":
             bs = [] if w[1] == "-" else [int(w[1][i:i + 2], 16) for i in range(0, len(w[1]), 2)]
             out.append(f"num {hash_string_ref(bs)}")
@@ -226,6 +230,9 @@ def gen_history(rng, length, kind=None, mode=None):
             op = f"new {t} {rng.choice(CAPS)}"; size[t] = 0
         elif x < 0.99:
             op = f"newdef {t}"; size[t] = 0
+        elif x < 0.995:
+            w_ = rng.choice([8, 16, 32, 64])
+            op = f"hashnum {w_} {rng.randrange(2)} {rng.choice([0, 1, (1 << (w_ - 1)) - 1, 1 << (w_ - 1), (1 << w_) - 1, rng.randrange(1 << w_)])}"
         else:
             op = "hashstr " + ("".join(f"{rng.randrange(256):02x}" for _ in range(rng.choice([0, 1, 2, 3, 5, 8]))) or "-")
         size[t] = min(size[t], dom + 3)
@@ -392,7 +399,7 @@ def extra_streams(ctx, hs):
             ss = [gen_history(rng, rng.choice([5, 10, 20, 40]), mode=5) for _ in range(n)]
             # the enumerated histories of configuration 0, with hash mode 5
             ss += [[l if not l.startswith("cfg ") else " ".join(l.split()[:2] + ["5", "4"]) for l in h]
-                   for h in hs if h and h[0].startswith("cfg ") and h[0].split()[2] == "0" and len(h) <= 11][:20000 if quick else 100000]
+                   for h in hs if h and h[0].startswith("cfg ") and h[0].split()[2] == "0" and len(h) <= 11][:8000 if quick else 100000]
             before = ctx.cov["evaluations"]
             diffs = differential_mp(ctx, hstr, C.driver_path(DRIVER), ss, 60 if quick else 240)
             ctx.log(f"string keys: {len(ss)} histories, {ctx.cov['evaluations'] - before} op lines, {len(diffs)} disagreement(s)")
